@@ -325,6 +325,65 @@ func worldPorts(w *World) {
 		hist("  -> %s", jsonStr(resp))
 	}
 
+	// directed prelude: a name that was given a server-chosen port asks again while nothing at all is free (every
+	// allowed port is owned by others or squatted) and is refused; once the ports are free again it asks a third
+	// time - its previous port is free, so that is the port it must get
+	if w.KnobBool("reservation_outlives_refusal", 35) {
+		w.Probe("ports.reservation_outlives_refusal")
+		proto := "tcp"
+		if w.KnobBool("reservation.udp", 30) {
+			proto = "udp"
+		}
+		x, occ := clients[0], clients[len(clients)-1]
+		doReg(x, "resv", proto, 0, "", "")
+		if m.live["resv"] != nil {
+			hist("%s.close(resv)", x.Name)
+			x.CloseProxy("resv")
+			syncCtl(x)
+			unlive("resv")
+			checkInv("close")
+			occupy := m.quota == 0 && w.KnobBool("reservation.occupy", 60)
+			for i, port := range allowedList {
+				if occupy {
+					doReg(occ, fmt.Sprintf("occ%d", i), proto, port, "", "")
+				} else {
+					m.squat[fmt.Sprintf("%s/%d", proto, port)] = true
+					w.Net.SquatPort(proto, fmt.Sprintf("10.0.0.1:%d", port), true)
+					w.Net.Count("fault.squat", 1)
+					hist("squat %s/%d", proto, port)
+				}
+			}
+			for j := 0; j < w.KnobPick("reservation.refusals", 1, 1, 2); j++ {
+				doReg(x, "resv", proto, 0, "", "")
+			}
+			checkInv("refused")
+			for i, port := range allowedList {
+				if occupy {
+					name := fmt.Sprintf("occ%d", i)
+					if m.live[name] != nil {
+						hist("%s.close(%s)", occ.Name, name)
+						occ.CloseProxy(name)
+						unlive(name)
+					}
+				} else {
+					delete(m.squat, fmt.Sprintf("%s/%d", proto, port))
+					w.Net.SquatPort(proto, fmt.Sprintf("10.0.0.1:%d", port), false)
+					hist("unsquat %s/%d", proto, port)
+				}
+			}
+			syncCtl(occ)
+			checkInv("released")
+			doReg(x, "resv", proto, 0, "", "")
+			checkInv("reg")
+			if w.KnobBool("reservation.close_again", 50) && m.live["resv"] != nil {
+				hist("%s.close(resv)", x.Name)
+				x.CloseProxy("resv")
+				syncCtl(x)
+				unlive("resv")
+			}
+		}
+	}
+
 	for i := 0; i < nops; i++ {
 		c := clients[r.Intn(len(clients))]
 		if c.IsClosed() {
